@@ -642,10 +642,13 @@ theorem RelF.relin {m : Nat → Nat} {s s' : St} {rs : Ref.St} {env env' : Nat} 
 
 /-- a `break`/`continue` was executed: control is at `tgt` in the loop of `γ`, the scopes opened inside
 the loop popped; above the data stack there is only garbage the loop's `clearMark`/`popUntilMark` removes -/
-def JumpedF (tgt : Int) (γ : LCtx) (Γ : List LCtx) (m : Nat → Nat) (s : St) (rs rs' : Ref.St) : Prop :=
+def JumpedB (B : List (Option Val)) (tgt : Int) (γ : LCtx) (Γ : List LCtx) (m : Nat → Nat) (s : St) (rs rs' : Ref.St) : Prop :=
   ∃ (s' : St) (m' : Nat → Nat) (X : List (Option Val)), ReachX s s' ∧ s'.pc = tgt ∧ s'.linear = γ.lin
-    ∧ s'.data = X ++ s.data ∧ (∀ γ' ∈ Γ, GoodAbove γ'.id X) ∧ fnOf s' s'.curfunc = fnOf s s.curfunc
+    ∧ s'.data = X ++ B ∧ (∀ γ' ∈ Γ, GoodAbove γ'.id X) ∧ fnOf s' s'.curfunc = fnOf s s.curfunc
     ∧ RelF m' s' rs' γ.fr ∧ MExt s m m' ∧ RExt rs rs' ∧ FrameNL s s'
+
+abbrev JumpedF (tgt : Int) (γ : LCtx) (Γ : List LCtx) (m : Nat → Nat) (s : St) (rs rs' : Ref.St) : Prop :=
+  JumpedB s.data tgt γ Γ m s rs rs'
 
 def SimX (code : List Instr) (Γ : List LCtx) (m : Nat → Nat) (s : St) (rs : Ref.St) (env : Nat) (res : Ref.R Val) : Prop :=
   match res with
@@ -665,13 +668,25 @@ theorem SimF.toX {code : List Instr} {Γ : List LCtx} {m : Nat → Nat} {s : St}
   | brk l rs' => exact h.elim
   | cont l rs' => exact h.elim
 
+theorem JumpedB.of_reach {B : List (Option Val)} {tgt : Int} {γ : LCtx} {Γ : List LCtx} {m m₁ : Nat → Nat} {s s₁ : St}
+    {rs rs₁ rs' : Ref.St} (hreach : ReachX s s₁) (hfn : fnOf s₁ s₁.curfunc = fnOf s s.curfunc)
+    (hm : MExt s m m₁) (hext : RExt rs rs₁) (hframe : FrameNL s s₁) (h : JumpedB B tgt γ Γ m₁ s₁ rs₁ rs') :
+    JumpedB B tgt γ Γ m s rs rs' := by
+  obtain ⟨s', m', X, r, hpc, hlin, hd, hg, hf, rel, hm', ext, fr⟩ := h
+  exact ⟨s', m', X, hreach.trans r, hpc, hlin, hd, hg, hf.trans hfn, rel, hm.trans hm' hframe.fnsLen,
+    hext.trans ext, hframe.trans fr⟩
+
+theorem JumpedB.weaken {B : List (Option Val)} {tgt : Int} {γ : LCtx} {Γ Γ' : List LCtx} {m : Nat → Nat} {s : St}
+    {rs rs' : Ref.St} (h : JumpedB B tgt γ Γ m s rs rs') (hsub : ∀ γ' ∈ Γ', γ' ∈ Γ) : JumpedB B tgt γ Γ' m s rs rs' := by
+  obtain ⟨s', m', X, r, hpc, hlin, hd, hg, hf, rel, hm', ext, fr⟩ := h
+  exact ⟨s', m', X, r, hpc, hlin, hd, fun γ' h' => hg γ' (hsub γ' h'), hf, rel, hm', ext, fr⟩
+
 theorem JumpedF.of_moved {tgt : Int} {γ : LCtx} {Γ : List LCtx} {m m₁ : Nat → Nat} {s s₁ : St} {rs rs₁ rs' : Ref.St}
     (hreach : ReachX s s₁) (hfn : fnOf s₁ s₁.curfunc = fnOf s s.curfunc) (hdata : s₁.data = s.data)
-    (hm : MExt s m m₁) (hext : RExt rs rs₁) (hframe : FrameF s s₁) (h : JumpedF tgt γ Γ m₁ s₁ rs₁ rs') :
+    (hm : MExt s m m₁) (hext : RExt rs rs₁) (hframe : FrameNL s s₁) (h : JumpedF tgt γ Γ m₁ s₁ rs₁ rs') :
     JumpedF tgt γ Γ m s rs rs' := by
-  obtain ⟨s', m', X, r, hpc, hlin, hd, hg, hf, rel, hm', ext, fr⟩ := h
-  exact ⟨s', m', X, hreach.trans r, hpc, hlin, by rw [hd, hdata], hg, hf.trans hfn, rel, hm.trans hm' hframe.fnsLen,
-    hext.trans ext, hframe.toNL.trans fr⟩
+  have h' : JumpedB s.data tgt γ Γ m₁ s₁ rs₁ rs' := hdata ▸ h
+  exact h'.of_reach hreach hfn hm hext hframe
 
 theorem SimX.seq {code c₂ : List Instr} {Γ : List LCtx} {m m₁ : Nat → Nat} {s s₁' : St} {rs rs₁ : Ref.St} {env k : Nat}
     {res : Ref.R Val} (hreach : ReachX s s₁') (hmoved : Moved k s s₁') (hm : MExt s m m₁) (hext : RExt rs rs₁)
@@ -686,10 +701,10 @@ theorem SimX.seq {code c₂ : List Instr} {Γ : List LCtx} {m m₁ : Nat → Nat
   | timeout => trivial
   | brk l rs' =>
     obtain ⟨γ, hγ, hj⟩ := h₂
-    exact ⟨γ, hγ, hj.of_moved hreach hmoved.fn hmoved.data hm hext hframe⟩
+    exact ⟨γ, hγ, hj.of_moved hreach hmoved.fn hmoved.data hm hext hframe.toNL⟩
   | cont l rs' =>
     obtain ⟨γ, hγ, hj⟩ := h₂
-    exact ⟨γ, hγ, hj.of_moved hreach hmoved.fn hmoved.data hm hext hframe⟩
+    exact ⟨γ, hγ, hj.of_moved hreach hmoved.fn hmoved.data hm hext hframe.toNL⟩
 
 theorem SimX.cond_exit {p b rest pre post : List Instr} {Γ : List LCtx} {m m₁ : Nat → Nat} {s s₁' : St} {rs rs₁ : Ref.St}
     {env : Nat} {res : Ref.R Val}
@@ -709,9 +724,397 @@ theorem SimX.cond_exit {p b rest pre post : List Instr} {Γ : List LCtx} {m m₁
   | timeout => trivial
   | brk l rs' =>
     obtain ⟨γ, hγ, hj⟩ := h₂
-    exact ⟨γ, hγ, hj.of_moved hreach hmoved.fn hmoved.data hm hext hframe⟩
+    exact ⟨γ, hγ, hj.of_moved hreach hmoved.fn hmoved.data hm hext hframe.toNL⟩
   | cont l rs' =>
     obtain ⟨γ, hγ, hj⟩ := h₂
-    exact ⟨γ, hγ, hj.of_moved hreach hmoved.fn hmoved.data hm hext hframe⟩
+    exact ⟨γ, hγ, hj.of_moved hreach hmoved.fn hmoved.data hm hext hframe.toNL⟩
+
+/-! ## Bookkeeping: the final loop table, the loop ids before the code -/
+
+/-- the loop records the generator completed are in the running state's loop table -/
+def LoopsFinal (gs' : GS) (s : St) : Prop :=
+  gs'.loops.length ≤ s.loops.length ∧
+    ∀ id, id < gs'.loops.length → id ∉ gs'.loopstack → s.loops.getD id {} = gs'.loops.getD id {}
+
+theorem LoopsFinal.first {g₁ g₂ : GS} {s : St} (h : LoopsFinal g₂ s) (hk : KeepFns g₁ g₂) : LoopsFinal g₁ s :=
+  ⟨Nat.le_trans hk.loopsLen h.1, fun id h1 h2 => by
+    rw [h.2 id (Nat.lt_of_lt_of_le h1 hk.loopsLen) (by rw [hk.loopstack]; exact h2)]; exact hk.loopsGet id h1⟩
+
+theorem LoopsFinal.frame {gs' : GS} {s s' : St} (h : LoopsFinal gs' s) (hf : Frame s s') : LoopsFinal gs' s' :=
+  ⟨Nat.le_trans h.1 hf.loopsLen, fun id h1 h2 => by
+    rw [hf.loops id (Nat.lt_of_lt_of_le h1 h.1)]; exact h.2 id h1 h2⟩
+
+/-- no `loopStart` before the code carries an id the code's compile allocates -/
+def LsOut (pre : List Instr) (a b : Nat) : Prop := ∀ l, Instr.loopStart l ∈ pre → l < a ∨ b ≤ l
+
+theorem LsOut.mono {pre : List Instr} {a b a' b' : Nat} (h : LsOut pre a b) (ha : a ≤ a') (hb : b' ≤ b) : LsOut pre a' b' :=
+  fun l hl => (h l hl).elim (fun h1 => Or.inl (Nat.lt_of_lt_of_le h1 ha)) (fun h2 => Or.inr (Nat.le_trans hb h2))
+
+theorem LsOut.app {pre code : List Instr} {a b : Nat} (h : LsOut pre a b) (hc : LsOut code a b) : LsOut (pre ++ code) a b :=
+  fun l hl => (List.mem_append.mp hl).elim (h l) (hc l)
+
+theorem LsIn.below {code : List Instr} {x y a b : Nat} (h : LsIn code x y) (hy : y ≤ a) : LsOut code a b :=
+  fun l hl => Or.inl (Nat.lt_of_lt_of_le (h l hl).2 hy)
+
+theorem LsIn.above {code : List Instr} {x y a b : Nat} (h : LsIn code x y) (hx : b ≤ x) : LsOut code a b :=
+  fun l hl => Or.inr (Nat.le_trans hx (h l hl).1)
+
+theorem lsOut_single {i : Instr} (hi : ∀ l, Instr.loopStart l ≠ i) (a b : Nat) : LsOut [i] a b :=
+  fun l hl => by simp only [List.mem_singleton] at hl; exact absurd hl (hi l)
+
+/-- the loop's `loopStart` is the first one with its id -/
+theorem findLoopStart_at {pre rest : List Instr} {L a b : Nat} (h : LsOut pre a b) (ha : a ≤ L) (hb : L < b) :
+    findLoopStart (pre ++ Instr.loopStart L :: rest) L = some pre.length := by
+  unfold findLoopStart
+  induction pre with
+  | nil => simp [List.findIdx?_cons]
+  | cons i pre ih =>
+    have ih' := ih (fun l hl => h l (List.mem_cons_of_mem _ hl))
+    have key : ∀ l, i = Instr.loopStart l → l ≠ L := fun l e => by
+      have := h l (e ▸ List.mem_cons_self ..); omega
+    clear h ih
+    have hi : (fun j : Instr => match j with | .loopStart l => l == L | _ => false) i = false := by
+      cases i with
+      | loopStart l => simpa using key l rfl
+      | _ => rfl
+    simp only [] at hi
+    simp only [List.cons_append, List.findIdx?_cons, hi, Bool.false_eq_true, if_false, List.length_cons]
+    rw [ih']; simp
+    exact hi
+
+/-- by determinism: what the compile of an Fx form leaves -/
+theorem compile_tot_Fx {ls : List (Option String)} {e : Expr} (he : Fx ls e = true) {isFn c gs Γ r} (hfn : c.funcname = "")
+    (hg : GsOk Γ gs) (hls : Γ.map (·.label) = ls) (h : (compile isFn c e).run gs = .ok r) :
+    r.1.1 ≠ [] ∧ TotX gs r.2 r.1.1 := by
+  obtain ⟨code, t, g1, h1, hne, hk⟩ := compile_total_Fx ls e he isFn c gs Γ hfn hg hls
+  rw [h1] at h; injection h with h; subst h; exact ⟨hne, hk⟩
+
+theorem compileBegin_tot_Fx {ls : List (Option String)} {es : List Expr} (hne : es ≠ []) (he : FxList ls es = true)
+    {isFn c gs Γ r} (hfn : c.funcname = "") (hg : GsOk Γ gs) (hls : Γ.map (·.label) = ls)
+    (h : (compileBegin isFn c es).run gs = .ok r) : TotX gs r.2 r.1.1 := by
+  obtain ⟨code, t, g1, h1, _, hk⟩ := compileBegin_total_Fx ls es hne he isFn c gs Γ hfn hg hls
+  rw [h1] at h; injection h with h; subst h; exact hk
+
+theorem compileBeginAny_tot_Fx {ls : List (Option String)} {es : List Expr} (he : FxList ls es = true)
+    {isFn c gs Γ r} (hfn : c.funcname = "") (hg : GsOk Γ gs) (hls : Γ.map (·.label) = ls)
+    (h : (compileBegin isFn c es).run gs = .ok r) : TotX gs r.2 r.1.1 := by
+  obtain ⟨code, t, g1, h1, hk⟩ := compileBeginAny_total_Fx ls es he isFn c gs Γ hfn hg hls
+  rw [h1] at h; injection h with h; subst h; exact hk
+
+theorem compileNewScope_tot_Fx {ls : List (Option String)} {es : List Expr} (hne : es ≠ []) (he : FxList ls es = true)
+    {isFn c oldtail gs Γ r} (hfn : c.funcname = "") (hg : GsOk Γ gs) (hls : Γ.map (·.label) = ls)
+    (h : (compileNewScope isFn c oldtail es).run gs = .ok r) : TotX gs r.2 r.1.1 := by
+  obtain ⟨code, t, g1, h1, _, hk⟩ := compileNewScope_total_Fx ls es hne he isFn c oldtail gs Γ hfn hg hls
+  rw [h1] at h; injection h with h; subst h; exact hk
+
+theorem compileArms_tot_Fx {ls : List (Option String)} {arms : List (Expr × Expr)} (he : FxArms ls arms = true)
+    {isFn c gs Γ r} (hfn : c.funcname = "") (hg : GsOk Γ gs) (hls : Γ.map (·.label) = ls)
+    (h : (compileArms isFn c arms).run gs = .ok r) :
+    KeepFns gs r.2 ∧ gs.loops.length ≤ r.2.loops.length
+      ∧ ∀ p ∈ r.1, LsIn p.1 gs.loops.length r.2.loops.length ∧ LsIn p.2 gs.loops.length r.2.loops.length := by
+  obtain ⟨as, g1, h1, hk⟩ := compileArms_total_Fx ls arms he isFn c gs Γ hfn hg hls
+  rw [h1] at h; injection h with h; subst h; exact hk
+
+theorem compile_tot_Ff {e : Expr} (he : Ff true "" e = true) {isFn c gs r} (hfn : c.funcname = "")
+    (h : (compile isFn c e).run gs = .ok r) : TotX gs r.2 r.1.1 := by
+  obtain ⟨code, t, g1, h1, _, hk⟩ := total_of_Ff he isFn c gs hfn
+  rw [h1] at h; injection h with h; subst h; exact hk
+
+/-! ## Scopes opened inside a loop -/
+
+theorem FrameNL.refl (s : St) : FrameNL s s :=
+  ⟨rfl, rfl, rfl, Nat.le_refl _, fun _ _ => rfl, Nat.le_refl _, fun _ _ => rfl, Nat.le_refl _, fun _ _ => rfl⟩
+
+theorem FrameNL.pushScope (s : St) : FrameNL s s.pushScope :=
+  ⟨rfl, rfl, rfl, Nat.le_refl _, fun _ _ => rfl, Nat.le_refl _, fun _ _ => rfl,
+    by show s.scopes.length ≤ (s.scopes ++ [_]).length; simp,
+    fun i hi => by rw [isFnScope_pushScope, if_pos hi]⟩
+
+theorem FnsKeep.of_nl {s s' : St} (hf : FrameNL s s') (hne : s.fns ≠ []) : FnsKeep s s' :=
+  FnsKeep.of_eq hf.fnsLen hf.fns (by cases hs : s.fns with | nil => exact absurd hs hne | cons _ _ => simp [mainFn])
+
+/-- the loop facts after anything that keeps the scopes below and only pushes on the two stacks -/
+theorem CtxF.after_nl {Γ : List LCtx} {sc sc' : Nat} {s s' : St} {rs rs' : Ref.St} (h : CtxF Γ sc s rs)
+    (hfn : fnOf s' s'.curfunc = fnOf s s.curfunc) (hfr : FrameNL s s') (hext : RExt rs rs')
+    (hlin : ∃ E, s'.linear = E ++ s.linear ∧ E.length + sc = sc')
+    (hd : ∃ X, s'.data = X ++ s.data ∧ ∀ γ ∈ Γ, GoodAbove γ.id X) : CtxF Γ sc' s' rs' := by
+  intro γ hγ
+  obtain ⟨h1, h2, h3, h4, ⟨extra, h5, h5'⟩, h6, ⟨k, hch, hfc⟩, h8, h9⟩ := h γ hγ
+  obtain ⟨X, hX, hgood⟩ := hd
+  obtain ⟨G, hG, hGg⟩ := h9
+  obtain ⟨E, hE, hEl⟩ := hlin
+  have hflags : ∀ i, i ≤ γ.fr → isFnScope s' i = isFnScope s i := fun i hi => hfr.flags i (by omega)
+  have hk : FnsKeep s s' := FnsKeep.of_nl hfr (fns_ne_nil_of_lt hfc.lt)
+  refine ⟨Nat.lt_of_lt_of_le h1 hfr.loopsLen, by rw [hfn]; exact h2, by rw [hfr.loops γ.id h1]; exact h3,
+    by rw [hfr.loops γ.id h1]; exact h4, ⟨E ++ extra, by rw [hE, h5, List.append_assoc], by rw [List.length_append]; omega⟩,
+    Nat.lt_of_lt_of_le h6 hfr.scLen,
+    ⟨k, hch.congr hext.1 hflags, ?_⟩, h8, ⟨X ++ G, by rw [hX, hG, List.append_assoc], (hgood γ hγ).append hGg⟩⟩
+  rw [hfr.curfunc]
+  exact hfc.transfer s.scopes.length hfr.flags hext.1 hk (fun e he => Nat.lt_trans (hch.k_lt e he) h6)
+    (takeToBoundary_chain hch hflags)
+
+theorem CtxF.pushScope {Γ : List LCtx} {sc : Nat} {s : St} {rs : Ref.St} {env : Nat} (h : CtxF Γ sc s rs) :
+    CtxF Γ (sc + 1) s.pushScope (Ref.newFrame rs env).2 :=
+  h.after_nl rfl (FrameNL.pushScope s) ⟨FramesExt.newFrame rs env, fun _ _ hc => hc⟩
+    ⟨[some s.scopes.length], rfl, by simp; omega⟩ ⟨[], rfl, fun γ _ => GoodAbove.nil γ.id⟩
+
+theorem SimX.scoped {inner pre post : List Instr} {Γ : List LCtx} {m : Nat → Nat} {s : St} {rs : Ref.St} {env : Nat}
+    {res : Ref.R Val} (h : Seg s pre ([.addScope] ++ inner ++ [.removeScope]) post) (hrel : RelF m s rs env)
+    (hin : SimX inner Γ m s.pushScope (Ref.newFrame rs env).2 rs.frames.length res) :
+    SimX ([.addScope] ++ inner ++ [.removeScope]) Γ m s rs env res := by
+  have hr1 := (glue_addScope h).1
+  have hext0 : RExt rs (Ref.newFrame rs env).2 := ⟨FramesExt.newFrame rs env, fun _ _ hc => hc⟩
+  cases res with
+  | ok v rs3 => exact SimF.scoped (res := .ok v rs3) h hrel hin
+  | err rs3 => exact SimF.scoped (res := .err rs3) h hrel hin
+  | timeout => trivial
+  | brk l rs3 =>
+    obtain ⟨γ, hγ, hj⟩ := hin
+    exact ⟨γ, hγ, JumpedB.of_reach hr1.toX rfl (MExt.refl _ _) hext0 (FrameNL.pushScope s) hj⟩
+  | cont l rs3 =>
+    obtain ⟨γ, hγ, hj⟩ := hin
+    exact ⟨γ, hγ, JumpedB.of_reach hr1.toX rfl (MExt.refl _ _) hext0 (FrameNL.pushScope s) hj⟩
+
+/-! ## `break` and `continue` -/
+
+theorem compile_brk_eq {Γ : List LCtx} {gs : GS} (hg : GsOk Γ gs) {l : Option String} {γ : LCtx} (hγ : findCtx Γ l = some γ)
+    (hmem : γ ∈ Γ) (isFn : Nat → Bool) (c : Ctx) :
+    (compile isFn c (.break_ l)).run gs = .ok (([.brk γ.id (c.scopes - (γ.depth + 1))], c.tail), gs) := by
+  rw [compile]
+  simp only [bind, StateT.bind, StateT.run, get, getThe, MonadStateOf.get, StateT.get, pure, Except.pure, Except.bind,
+    StateT.pure, findLoop_ctx hg, hγ, Option.map_some, (hg.recs γ hmem).2.2]
+
+theorem compile_cont_eq {Γ : List LCtx} {gs : GS} (hg : GsOk Γ gs) {l : Option String} {γ : LCtx} (hγ : findCtx Γ l = some γ)
+    (hmem : γ ∈ Γ) (isFn : Nat → Bool) (c : Ctx) :
+    (compile isFn c (.continue_ l)).run gs = .ok (([.cont γ.id (c.scopes - (γ.depth + 1))], c.tail), gs) := by
+  rw [compile]
+  simp only [bind, StateT.bind, StateT.run, get, getThe, MonadStateOf.get, StateT.get, pure, Except.pure, Except.bind,
+    StateT.pure, findLoop_ctx hg, hγ, Option.map_some, (hg.recs γ hmem).2.2]
+
+theorem jumpedF_exit {Γ : List LCtx} {γ : LCtx} {sc : Nat} {m : Nat → Nat} {s : St} {rs : Ref.St} {env : Nat} {tgt : Int}
+    (hc : CtxF1 γ sc s rs) (hrel : RelF m s rs env) (hr : ReachX s (jumpedTo s γ.lin tgt)) :
+    JumpedF tgt γ Γ m s rs rs :=
+  ⟨jumpedTo s γ.lin tgt, m, [], hr, rfl, rfl, rfl, fun γ' _ => GoodAbove.nil γ'.id, rfl,
+    hrel.relin rfl rfl rfl rfl rfl hc.bottom hc.chain, MExt.refl _ _, RExt.refl _,
+    ⟨rfl, rfl, rfl, Nat.le_refl _, fun _ _ => rfl, Nat.le_refl _, fun _ _ => rfl, Nat.le_refl _, fun _ _ => rfl⟩⟩
+
+theorem simX_brk {Γ : List LCtx} {l : Option String} {γ : LCtx} {sc : Nat} {m : Nat → Nat} {s : St} {rs : Ref.St} {env : Nat}
+    {pre post : List Instr} (hγ : findCtx Γ l = some γ) (hmem : γ ∈ Γ) (hctx : CtxF Γ sc s rs) (hrel : RelF m s rs env)
+    (hseg : Seg s pre [.brk γ.id (sc - (γ.depth + 1))] post) :
+    SimX [.brk γ.id (sc - (γ.depth + 1))] Γ m s rs env (.brk l rs) := by
+  have hc := hctx γ hmem
+  obtain ⟨extra, hlin, hlen⟩ := hc.lin
+  refine ⟨γ, hγ, jumpedF_exit hc hrel ?_⟩
+  rw [← hc.brk]
+  exact (Reach.step hseg.head (fun f => exec_brk f γ.id _ s γ.start extra γ.lin hc.start hlin (by omega))).toX
+
+theorem simX_cont {Γ : List LCtx} {l : Option String} {γ : LCtx} {sc : Nat} {m : Nat → Nat} {s : St} {rs : Ref.St} {env : Nat}
+    {pre post : List Instr} (hγ : findCtx Γ l = some γ) (hmem : γ ∈ Γ) (hctx : CtxF Γ sc s rs) (hrel : RelF m s rs env)
+    (hseg : Seg s pre [.cont γ.id (sc - (γ.depth + 1))] post) :
+    SimX [.cont γ.id (sc - (γ.depth + 1))] Γ m s rs env (.cont l rs) := by
+  have hc := hctx γ hmem
+  obtain ⟨extra, hlin, hlen⟩ := hc.lin
+  refine ⟨γ, hγ, jumpedF_exit hc hrel ?_⟩
+  rw [← hc.cont]
+  exact (Reach.step hseg.head (fun f => exec_cont f γ.id _ s γ.start extra γ.lin hc.start hlin (by omega))).toX
+
+/-! ## The claims with non-local exits -/
+
+theorem CtxF.moved {Γ : List LCtx} {sc k : Nat} {s s' : St} {rs rs' : Ref.St} (h : CtxF Γ sc s rs) (mv : Moved k s s')
+    (fr : FrameF s s') (ext : RExt rs rs') : CtxF Γ sc s' rs' :=
+  h.after mv.fn fr ext ⟨[], by rw [mv.data]; rfl, fun γ _ => GoodAbove.nil γ.id⟩
+
+def XClaimE (n : Nat) : Prop :=
+  ∀ ls e, Fx ls e = true → ∀ isFn c gs r, (compile isFn c e).run gs = .ok r → c.funcname = "" →
+  ∀ Γ, Γ.map (·.label) = ls → GsOk Γ gs →
+  ∀ m s rs env pre post, RelF m s rs env → GenOk gs r.2 s → CtxF Γ c.scopes s rs → LoopsFinal r.2 s →
+    LsOut pre gs.loops.length r.2.loops.length → Seg s pre r.1.1 post →
+    SimX r.1.1 Γ m s rs env (Ref.eval n e env rs)
+
+def XClaimB (n : Nat) : Prop :=
+  ∀ ls es, es ≠ [] → FxList ls es = true → ∀ isFn c gs r, (compileBegin isFn c es).run gs = .ok r → c.funcname = "" →
+  ∀ Γ, Γ.map (·.label) = ls → GsOk Γ gs →
+  ∀ m s rs env pre post, RelF m s rs env → GenOk gs r.2 s → CtxF Γ c.scopes s rs → LoopsFinal r.2 s →
+    LsOut pre gs.loops.length r.2.loops.length → Seg s pre r.1.1 post →
+    SimX r.1.1 Γ m s rs env (Ref.evalBegin n es env rs)
+
+def XClaimN (n : Nat) : Prop :=
+  ∀ ls es, es ≠ [] → FxList ls es = true → ∀ isFn c oldtail gs r, (compileNewScope isFn c oldtail es).run gs = .ok r →
+  c.funcname = "" →
+  ∀ Γ, Γ.map (·.label) = ls → GsOk Γ gs →
+  ∀ m s rs env pre post, RelF m s rs env → GenOk gs r.2 s → CtxF Γ c.scopes s rs → LoopsFinal r.2 s →
+    LsOut pre gs.loops.length r.2.loops.length → Seg s pre r.1.1 post →
+    SimX r.1.1 Γ m s rs env (Ref.evalBegin n es env rs)
+
+def XClaimC (n : Nat) : Prop :=
+  ∀ ls arms d, FxArms ls arms = true → Fx ls d = true → ∀ isFn c gs r gs0 rd,
+    (compileArms isFn c arms).run gs = .ok r → (compile isFn c d).run gs0 = .ok rd → c.funcname = "" →
+  ∀ Γ, Γ.map (·.label) = ls → GsOk Γ gs → GsOk Γ gs0 →
+  ∀ m s rs env pre post, RelF m s rs env → GenOk gs r.2 s → GenOk gs0 rd.2 s → CtxF Γ c.scopes s rs →
+    LoopsFinal r.2 s → LoopsFinal rd.2 s →
+    LsOut pre gs.loops.length r.2.loops.length → LsOut pre gs0.loops.length rd.2.loops.length →
+    rd.2.loops.length ≤ gs.loops.length →
+    Seg s pre (asmCond r.1 rd.1.1) post →
+    SimX (asmCond r.1 rd.1.1) Γ m s rs env (Ref.evalCond n arms d env rs)
+
+theorem lsOut_pop (a b : Nat) : LsOut [Instr.pop] a b := lsOut_single (fun _ h => by cases h) a b
+
+theorem xclaimB_succ {n : Nat} (hE : XClaimE n) (hB : XClaimB n) : XClaimB (n + 1) := by
+  intro ls es hne hes isFn c gs r hc hfn Γ hls hg m s rs env pre post hrel hgen hctx hlf hlo hseg
+  match es, hne with
+  | [e], _ =>
+    rw [FxList] at hes
+    simp only [Bool.and_eq_true] at hes
+    rw [compileBegin] at hc
+    rw [Ref.evalBegin]
+    exact hE ls e hes.1 isFn c gs r hc hfn Γ hls hg m s rs env pre post hrel hgen hctx hlf hlo hseg
+  | e :: e' :: es', _ =>
+    rw [FxList] at hes
+    simp only [Bool.and_eq_true] at hes
+    rw [compileBegin] at hc
+    · simp only [g_bind_ok, g_pure_ok] at hc
+      obtain ⟨ra, gs1, ha, rb, gs2, hb, rfl⟩ := hc
+      have hfn' : ({ c with tail := false } : Ctx).funcname = "" := hfn
+      obtain ⟨hane', tot1⟩ := compile_tot_Fx hes.1 hfn' hg hls ha
+      have tot2 := compileBegin_tot_Fx (by simp) hes.2 hfn (hg.keep tot1.1) hls hb
+      have hane : ra.1.isEmpty = false := by simpa [List.isEmpty_eq_false_iff] using hane'
+      simp only [hane, Bool.false_eq_true, if_false] at hseg hgen hlf hlo ⊢
+      rw [Ref.evalBegin]
+      · have ih := hE ls e hes.1 isFn _ gs (ra, gs1) ha hfn' Γ hls hg m s rs env pre ([.pop] ++ rb.1 ++ post) hrel
+          (hgen.first tot2.1) hctx (hlf.first tot2.1) (hlo.mono (Nat.le_refl _) tot2.2.1) (hseg.refocus (by simp))
+        cases h1 : Ref.eval n e env rs with
+        | ok v1 rs1 =>
+          rw [h1] at ih
+          obtain ⟨s1, m1, w1, r1, l1, hv1, rel1, hm1, ext1, fr1, hcl1⟩ := ih
+          obtain ⟨r2, m2⟩ := glue_pop hseg l1
+          have hfr := fr1.trans (FrameF.jmp s1 (s1.pc + 1) s.data)
+          have ih2 := hB ls (e' :: es') (by simp) hes.2 isFn c gs1 (rb, gs2) hb hfn Γ hls (hg.keep tot1.1) m1
+            (s1.jmp (s1.pc + 1) s.data) rs1 env _ post (rel1.jmp _ _)
+            ((hgen.rest tot1.1).frame hfr.toFrame) (hctx.moved m2 hfr ext1) (hlf.frame hfr.toFrame)
+            ((hlo.mono tot1.2.1 (Nat.le_refl _)).app ((tot1.2.2.below (Nat.le_refl _)).app (lsOut_pop _ _)))
+            (hseg.moved m2 (c₁ := ra.1 ++ [.pop]) (c₂ := rb.1) (post' := post) rfl (by simp))
+          exact SimX.seq (r1.trans r2.toX) m2 hm1 ext1 hfr ih2 (by lenarith)
+        | err rs1 => rw [h1] at ih; exact ih
+        | timeout => trivial
+        | brk l rs1 => rw [h1] at ih; exact ih
+        | cont l rs1 => rw [h1] at ih; exact ih
+      · intro hh; cases hh
+    · intro hh; cases hh
+
+theorem xclaimN_succ {n : Nat} (hE : XClaimE n) (hN : XClaimN n) : XClaimN (n + 1) := by
+  intro ls es hne hes isFn c oldtail gs r hc hfn Γ hls hg m s rs env pre post hrel hgen hctx hlf hlo hseg
+  match es, hne with
+  | [e], _ =>
+    rw [FxList] at hes
+    simp only [Bool.and_eq_true] at hes
+    rw [compileNewScope] at hc
+    rw [Ref.evalBegin]
+    exact hE ls e hes.1 isFn _ gs r hc hfn Γ hls hg m s rs env pre post hrel hgen hctx hlf hlo hseg
+  | e :: e' :: es', _ =>
+    rw [FxList] at hes
+    simp only [Bool.and_eq_true] at hes
+    rw [compileNewScope] at hc
+    · simp only [g_bind_ok, g_pure_ok] at hc
+      obtain ⟨ra, gs1, ha, rb, gs2, hb, rfl⟩ := hc
+      have hfn' : ({ c with tail := false } : Ctx).funcname = "" := hfn
+      obtain ⟨hane', tot1⟩ := compile_tot_Fx hes.1 hfn' hg hls ha
+      have tot2 := compileNewScope_tot_Fx (by simp) hes.2 hfn (hg.keep tot1.1) hls hb
+      simp only at hgen hlf hlo
+      rw [Ref.evalBegin]
+      · have ih := hE ls e hes.1 isFn _ gs (ra, gs1) ha hfn' Γ hls hg m s rs env pre ([.pop] ++ rb.1 ++ post) hrel
+          (hgen.first tot2.1) hctx (hlf.first tot2.1) (hlo.mono (Nat.le_refl _) tot2.2.1) (hseg.refocus (by simp))
+        cases h1 : Ref.eval n e env rs with
+        | ok v1 rs1 =>
+          rw [h1] at ih
+          obtain ⟨s1, m1, w1, r1, l1, hv1, rel1, hm1, ext1, fr1, hcl1⟩ := ih
+          obtain ⟨r2, m2⟩ := glue_pop hseg l1
+          have hfr := fr1.trans (FrameF.jmp s1 (s1.pc + 1) s.data)
+          have ih2 := hN ls (e' :: es') (by simp) hes.2 isFn c oldtail gs1 (rb, gs2) hb hfn Γ hls (hg.keep tot1.1) m1
+            (s1.jmp (s1.pc + 1) s.data) rs1 env _ post (rel1.jmp _ _)
+            ((hgen.rest tot1.1).frame hfr.toFrame) (hctx.moved m2 hfr ext1) (hlf.frame hfr.toFrame)
+            ((hlo.mono tot1.2.1 (Nat.le_refl _)).app ((tot1.2.2.below (Nat.le_refl _)).app (lsOut_pop _ _)))
+            (hseg.moved m2 (c₁ := ra.1 ++ [.pop]) (c₂ := rb.1) (post' := post) rfl (by simp))
+          exact SimX.seq (r1.trans r2.toX) m2 hm1 ext1 hfr ih2 (by lenarith)
+        | err rs1 => rw [h1] at ih; exact ih
+        | timeout => trivial
+        | brk l rs1 => rw [h1] at ih; exact ih
+        | cont l rs1 => rw [h1] at ih; exact ih
+      · intro hh; cases hh
+    · intro hh; cases hh
+
+theorem lsOut_one (i : Instr) (a b : Nat) (hi : ∀ l, Instr.loopStart l ≠ i := by intro l h; cases h) : LsOut [i] a b :=
+  lsOut_single hi a b
+
+theorem xclaimC_succ {n : Nat} (hFE : FClaimE n) (hE : XClaimE n) (hC : XClaimC n) : XClaimC (n + 1) := by
+  intro ls arms d harms hd isFn c gs r gs0 rd hc hcd hfn Γ hls hg hg0 m s rs env pre post hrel hgen hgend hctx hlf hlfd
+    hlo hlod hdl hseg
+  match arms with
+  | [] =>
+    rw [compileArms] at hc; simp only [g_pure_ok] at hc; subst hc
+    rw [Ref.evalCond]
+    simp only [asmCond] at hseg ⊢
+    exact hE ls d hd isFn c gs0 rd hcd hfn Γ hls hg0 m s rs env pre post hrel hgend hctx hlfd hlod hseg
+  | (p, b) :: arms' =>
+    rw [FxArms] at harms
+    simp only [Bool.and_eq_true] at harms
+    rw [compileArms] at hc
+    simp only [g_bind_ok, g_pure_ok] at hc
+    obtain ⟨rest, gs1, hrest, rp, gs2, hp, rb, gs3, hb, rfl⟩ := hc
+    have hfn' : ({ c with tail := false } : Ctx).funcname = "" := hfn
+    have totr := compileArms_tot_Fx harms.2 hfn hg hls hrest
+    have totp := compile_tot_Ff harms.1.1 hfn' hp
+    obtain ⟨_, totb⟩ := compile_tot_Fx harms.1.2 hfn (hg.keep (totr.1.trans totp.1)) hls hb
+    have l01 : gs.loops.length ≤ gs1.loops.length := totr.2.1
+    have l12 : gs1.loops.length ≤ gs2.loops.length := totp.2.1
+    have l23 : gs2.loops.length ≤ gs3.loops.length := totb.2.1
+    rw [Ref.evalCond]
+    simp only [asmCond] at hseg hgen hlf hlo ⊢
+    have ih := hFE true "" p harms.1.1 isFn _ gs1 (rp, gs2) hp (Or.inr (Or.inl hfn)) m s rs env pre _ hrel
+      (fun _ => (hgen.rest totr.1).first totb.1) (hseg.refocus (c' := rp.1)
+      (post' := [.branch false (rb.1.length + 2)] ++ rb.1 ++ [.jump ((asmCond rest rd.1.1).length + 1)]
+        ++ asmCond rest rd.1.1 ++ post) (by simp))
+    cases h1 : Ref.eval n p env rs with
+    | ok v1 rs1 =>
+      rw [h1] at ih
+      obtain ⟨s1, m1, w1, r1, l1, hv1, rel1, hm1, ext1, fr1, hcl1⟩ := ih
+      simp only
+      have htr : truthy v1 = truthy w1 := by rw [hv1]; exact truthy_tr m1 id id w1
+      by_cases ht : truthy w1 = true
+      · rw [htr, if_pos ht]
+        obtain ⟨r2, m2⟩ := glue_brn_fall hseg l1 ht
+        have hfr := fr1.trans (FrameF.jmp s1 (s1.pc + 1) s.data)
+        have ih2 := hE ls b harms.1.2 isFn c gs2 (rb, gs3) hb hfn Γ hls (hg.keep (totr.1.trans totp.1)) m1
+          (s1.jmp (s1.pc + 1) s.data) rs1 env _ _ (rel1.jmp _ _)
+          ((hgen.rest (totr.1.trans totp.1)).frame hfr.toFrame) (hctx.moved m2 hfr ext1) (hlf.frame hfr.toFrame)
+          ((hlo.mono (Nat.le_trans l01 l12) (Nat.le_refl _)).app
+            ((totp.2.2.below (Nat.le_refl _)).app (lsOut_one (.branch false (rb.1.length + 2)) _ _)))
+          (hseg.moved m2 (c₁ := rp.1 ++ [.branch false (rb.1.length + 2)]) (c₂ := rb.1)
+            (post' := [.jump ((asmCond rest rd.1.1).length + 1)] ++ asmCond rest rd.1.1 ++ post)
+            (by simp) (by simp))
+        exact SimX.cond_exit hseg (r1.trans r2.toX) m2 hm1 ext1 hfr ih2
+      · rw [htr, if_neg ht]
+        obtain ⟨r2, m2⟩ := glue_brn_taken hseg l1 (by simpa using ht)
+        have hfr := fr1.trans (FrameF.jmp s1 (s1.pc + ((rb.1.length : Int) + 2)) s.data)
+        have hk13 := totp.1.trans totb.1
+        have ih2 := hC ls arms' d harms.2 hd isFn c gs (rest, gs1) gs0 rd hrest hcd hfn Γ hls hg hg0 m1
+          (s1.jmp (s1.pc + ((rb.1.length : Int) + 2)) s.data) rs1 env _ post (rel1.jmp _ _)
+          ((hgen.first hk13).frame hfr.toFrame) (hgend.frame hfr.toFrame) (hctx.moved m2 hfr ext1)
+          ((hlf.first hk13).frame hfr.toFrame) (hlfd.frame hfr.toFrame)
+          ((hlo.mono (Nat.le_refl _) (Nat.le_trans l12 l23)).app
+            ((((totp.2.2.above (Nat.le_refl _)).app (lsOut_one (.branch false (rb.1.length + 2)) _ _)).app
+              (totb.2.2.above l12)).app (lsOut_one (.jump ((asmCond rest rd.1.1).length + 1)) _ _)))
+          (hlod.app
+            ((((totp.2.2.above (Nat.le_trans hdl l01)).app (lsOut_one (.branch false (rb.1.length + 2)) _ _)).app
+              (totb.2.2.above (Nat.le_trans hdl (Nat.le_trans l01 l12)))).app
+              (lsOut_one (.jump ((asmCond rest rd.1.1).length + 1)) _ _)))
+          hdl
+          (hseg.moved m2 (c₁ := rp.1 ++ [.branch false (rb.1.length + 2)] ++ rb.1
+              ++ [.jump ((asmCond rest rd.1.1).length + 1)]) (c₂ := asmCond rest rd.1.1) (post' := post)
+            (by simp) (by lenarith))
+        exact SimX.seq (r1.trans r2.toX) m2 hm1 ext1 hfr ih2 (by lenarith)
+    | err rs1 => rw [h1] at ih; exact ih
+    | timeout => trivial
+    | brk l rs1 => rw [h1] at ih; exact ih.elim
+    | cont l rs1 => rw [h1] at ih; exact ih.elim
 
 end ZygoVerif.Sim
